@@ -289,8 +289,9 @@ def near_tie_explains(th, q1, qd, fd):
         return Fraction(0) if x > t else (x - t) ** 2
 
     def term_f(x, t):
-        return 0.0 if x > t else (x - t) ** 2
+        return 0.0 if x > t else float((x - t) ** 2)
     for a, b, c in zip(q1, qd, fd):
+        a, b, c = float(a), float(b), float(c)
         tq1 = term_x(fr(a), thx['q1_th'])
         tqd = term_x(fr(b), thx['qdiff_th'])
         tf = term_x(fr(c), thx['log2_fold_th'])
@@ -307,8 +308,8 @@ def near_tie_explains(th, q1, qd, fd):
     n = len(vals_x)
     for i in range(n):
         for j in range(i + 1, n):
-            sx = (vals_x[i] > vals_x[j]) - (vals_x[i] < vals_x[j])
-            sf = (vals_f[i] > vals_f[j]) - (vals_f[i] < vals_f[j])
+            sx = int(vals_x[i] > vals_x[j]) - int(vals_x[i] < vals_x[j])
+            sf = int(vals_f[i] > vals_f[j]) - int(vals_f[i] < vals_f[j])
             if sx != sf:
                 return True
             if sx != 0 and near(vals_x[i], vals_x[j],
@@ -1119,7 +1120,7 @@ def run(ctx):
     for _ in range(10 if quick else 80):
         check_sparse_merge(ctx, rng)
     # ---- file layer --------------------------------------------------------
-    n_files = 7 if quick else 70
+    n_files = 24 if quick else 400
     for k in range(n_files):
         prob, cfg = gen_file_case(rng, ctx.tier)
         run_file_case(ctx, prob, cfg)
